@@ -44,7 +44,8 @@ OBLIGATIONS = {"dtype:int": 40, "dtype:uint": 40, "dtype:float": 30, "dtype:64bi
                "nodata:nondefault": 40, "values:extreme": 20, "layout-variant": 30,
                "resave": 30, "clip:corner-on-edge": 10,
                "clip:dict-clone": 20, "bigendian:resave": 10,
-               "filename:special-characters": 50, "clip:grid-moved-after-use": 10}
+               "filename:special-characters": 50, "clip:grid-moved-after-use": 10,
+               "zip:namesake-grid": 20, "clone:big-endian-dtype": 10}
 
 DTYPES = [np.int8, np.int16, np.int32, np.int64, np.uint8, np.uint16, np.uint32,
           np.uint64, np.float16, np.float32, np.float64]
@@ -228,6 +229,12 @@ def run_case(ctx, case):
                 ctx.tag("load:from_zip")
                 fz = str(base) + ".zip"
                 with zipfile.ZipFile(fz, "w") as z:
+                    # a namesake in another folder, stored first (same shape and type,
+                    # other cells), as in archives holding one grid per year
+                    ctx.tag("zip:namesake-grid")
+                    z.write(fhdr, "other/grid.hdr")
+                    z.writestr("other/grid.bil", np.asarray(
+                        stored[::-1, ::-1]).astype(dt).tobytes())
                     z.write(fhdr, "sub/grid.hdr")
                     z.write(fbil, "sub/grid.bil")
                 loaders["from_zip"] = g.Grid.from_zip(fz, "sub/grid.hdr")
@@ -331,6 +338,29 @@ def run_case(ctx, case):
                 f.unlink()
             except OSError:
                 pass
+    # ------------------- conversion to an explicit big-endian dtype, then save / load ----
+    if dt.itemsize > 1 and int(case["seed"]) % 3 == 0:
+        ctx.tag("clone:big-endian-dtype")
+        ctx.api("Grid.clone(dtype)")
+        sub2 = wd / f"be{ctx.evaluations}"
+        sub2.mkdir(parents=True, exist_ok=True)
+        try:
+            gbe = gr.clone(dt.newbyteorder(">"))
+            fb2 = str(sub2 / "g.bil")
+            gbe.save(fb2)
+            with warnings.catch_warnings():
+                warnings.simplefilter("ignore")
+                gl = g.Grid.from_header(str(sub2 / "g.hdr"))
+            ctx.check("clone.big-endian-save-load", values_equal(np.asarray(gl.data), stored),
+                      f"save-load|grid-converted-to-big-endian-dtype|{tagk}", case,
+                      lambda: {"expected": stored.ravel()[:4].tolist(),
+                               "loaded": np.asarray(gl.data).ravel()[:4].tolist()})
+        except (TypeError, ValueError) as e:
+            # a library that refuses dtype instances is not wrong about cell values
+            ctx.extra["clone-big-endian-refused"] += 1
+        finally:
+            import shutil as _sh2
+            _sh2.rmtree(sub2, ignore_errors=True)
     # ----------------------------------------------------------- dictionary ----
     ctx.tag("dict")
     ctx.api("Grid.to_dict/from_dict")
